@@ -222,7 +222,7 @@ pub fn worker_hist(prop: &str, shard: usize, _nshards: usize, seed: u64, tier: &
     install_panic_hook();
     let corpus = gen::corpus();
     let (nhist, len, maxd) = match tier {
-        "thorough" => (400, 40, 6u8),
+        "thorough" => (900, 40, 6u8),
         _ => (50, 24, 5u8),
     };
     let mut rng = Rng::new(seed, 0x6000 + shard as u64);
@@ -400,7 +400,7 @@ pub fn worker_c07(shard: usize, _nshards: usize, seed: u64, tier: &str, out: &mu
     install_panic_hook();
     let corpus = gen::corpus();
     let (nsmall, nbig, cap) = match tier {
-        "thorough" => (120, 60, 4000u64),
+        "thorough" => (400, 150, 4000u64),
         _ => (40, 12, 1200u64),
     };
     let mut rng = Rng::new(seed, 0x7000 + shard as u64);
